@@ -96,6 +96,7 @@ class AbsFile(Native):
         self.text = text
         self.closed = False
         self.pos = 0
+        self.sizes = []      # positive size / hint arguments seen: the scale at which a reader may change behaviour
 
     def sa_enter(self, interp):
         return self
@@ -107,24 +108,44 @@ class AbsFile(Native):
         r = self.text[self.pos:]
         return r
 
+    def _size(self, a, kw, key):
+        n = a[0] if a else kw.get(key, -1)
+        if n is None:
+            return -1
+        if isinstance(n, bool) or not isinstance(n, int):
+            raise PyRaise(TypeError, ("argument should be integer or None",))
+        if n > 0:
+            self.sizes.append(n)
+        return n
+
     def sa_getattr(self, interp, name):
         if name == "read":
             def read(it, a, kw):
-                n = a[0] if a else -1
-                r = self._rest() if n is None or n < 0 else self._rest()[:n]
+                n = self._size(a, kw, "size")
+                r = self._rest() if n < 0 else self._rest()[:n]
                 self.pos += len(r)
                 return r
             return NativeMethod(read)
         if name == "readlines":
             def readlines(it, a, kw):
-                r = self._rest().splitlines(keepends=True)
-                self.pos = len(self.text)
-                return r
+                # io semantics: no more lines are read once the total size read so far reaches a positive hint
+                n = self._size(a, kw, "hint")
+                out, total = [], 0
+                for ln in self._rest().splitlines(keepends=True):
+                    out.append(ln)
+                    total += len(ln)
+                    if n > 0 and total >= n:
+                        break
+                self.pos += total
+                return out
             return NativeMethod(readlines)
         if name == "readline":
             def readline(it, a, kw):
+                n = self._size(a, kw, "size")
                 ls = self._rest().splitlines(keepends=True)
                 r = ls[0] if ls else ""
+                if n >= 0:
+                    r = r[:n]
                 self.pos += len(r)
                 return r
             return NativeMethod(readline)
@@ -181,6 +202,8 @@ class MatchHooks(PregexHooks):
         self.extracted = []      # files opened
         self.opens = []          # bound arguments of every open()
         self.matches_for = matches_for or (lambda subject: [])
+        self.file_text = TEXT    # content of the path witness
+        self.files = []
 
     def open_file(self, interp, args, kwargs, node):
         import inspect as _inspect
@@ -194,10 +217,10 @@ class MatchHooks(PregexHooks):
         self.extracted.append(src)
         self.opens.append({"file": src, "mode": b.get("mode", "r"), "encoding": b.get("encoding"), "errors": b.get("errors"),
                            "newline": b.get("newline")})
-        if src == PATH:
-            return AbsFile(TEXT)
         if isinstance(src, str):
-            return AbsFile(f"<content-of:{src}>")
+            fobj = AbsFile(self.file_text if src == PATH else f"<content-of:{src}>")
+            self.files.append(fobj)
+            return fobj
         raise PyRaise(TypeError, ("open() argument",))
 
     def intercept_py(self, interp, f, args, kwargs, node):
